@@ -74,6 +74,7 @@ type InlineOpts struct {
 	None  bool                       // no inlining at all (only the other switches apply)
 	Loops bool                       // keep a helper inlined even when one of its loops is cut (cycle analyses)
 	Pred  func(g *ssa.Function) bool // if set, decides which callees are inlined (replaces the result-based default)
+	Cyc   bool                       // with Pred: a callee on a call-graph cycle may be read in place too (Pred bounds the expansion; a function is never inlined inside itself)
 }
 
 // enumPaths enumerates loop-free entry→exit paths. complete=false if more than max paths exist.
@@ -461,7 +462,7 @@ func (w *pathWalker) inlineTarget(call *ssa.Call, p *Path) *ssa.Function {
 	if len(call.Call.Args) != len(g.Params) || g.Signature.Variadic() && false {
 		return nil
 	}
-	if w.c.inCycleAvoiding(g, w.fn, o.Keep) {
+	if !(o.Cyc && o.Pred != nil) && w.c.inCycleAvoiding(g, w.fn, o.Keep) {
 		return nil
 	}
 	n := 0
